@@ -135,6 +135,36 @@ pub fn run(ctx: &mut Ctx) {
         }
     });
 
+
+    // the deprecated alias must equal parse_tls_plaintext on large inputs as well
+    ctx.sweep("alias-large", 24, |ctx, idx| {
+        let mut r = crate::rng::Rng::new(idx ^ 0xA11A5);
+        let m = gen::msg_list(&mut r, gen::SMALL, 0x16);
+        let mut buf = refenc::record(0x16, 0x0303, &refenc::msgs_payload(&m));
+        let extra = [0usize, 16640, 65530, 65536, 70001, 131072, 200_000, 1 << 20][(idx % 8) as usize];
+        let tail = r.bytes(extra);
+        buf.extend_from_slice(&tail);
+        if idx >= 16 {
+            // an oversized / invalid first record followed by a lot of data
+            buf[3] = 0xff;
+        }
+        #[allow(deprecated)]
+        let a = tls_parser(&buf);
+        let b = parse_tls_plaintext(&buf);
+        ctx.eval();
+        ctx.count("alias.cases");
+        ctx.shape(&("alias-large", extra, a.is_ok()));
+        let same = match (&a, &b) {
+            (Ok((r1, v1)), Ok((r2, v2))) => v1 == v2 && r1.len() == r2.len() && r1.as_ptr() == r2.as_ptr(),
+            (Err(Err::Incomplete(x)), Err(Err::Incomplete(y))) => x == y,
+            (Err(Err::Error(x)), Err(Err::Error(y))) | (Err(Err::Failure(x)), Err(Err::Failure(y))) => x.code == y.code && x.input.len() == y.input.len(),
+            _ => false,
+        };
+        if !same {
+            ctx.violation("c16:tls_parser:differs-from-parse_tls_plaintext".into(), json!({"input_len": buf.len(), "alias": classify(&a).show(), "plaintext": classify(&b).show()}));
+        }
+    });
+
     let n = ctx.tier.pick(10_000, 100_000);
     ctx.family("dtls", n, |ctx, case: &mut Case| {
         let r = &mut case.rng;
